@@ -28,6 +28,23 @@ impl Type {
     pub fn tuple_of(t: Vec<Self>) -> Self {
         Self::Tuple(t)
     }
+    // The common type of two types. `any` is the member type of an empty array and stands for
+    // every type, so the result is the more specific one.
+    pub fn unify(&self, other: &Self) -> Option<Self> {
+        use Type::*;
+        match (self, other) {
+            (Any, t) | (t, Any) => Some(t.clone()),
+            (Array(a), Array(b)) => a.unify(b).map(Self::array_of),
+            (Tuple(a), Tuple(b)) if a.len() == b.len() => a
+                .iter()
+                .zip(b.iter())
+                .map(|(a, b)| a.unify(b))
+                .collect::<Option<Vec<_>>>()
+                .map(Tuple),
+            (a, b) if a == b => Some(a.clone()),
+            _ => None,
+        }
+    }
 }
 
 impl PartialEq for Type {
@@ -334,15 +351,14 @@ impl Evaluatable for Value {
                 if a.is_empty() {
                     Ok(Type::Array(Box::new(Type::Any)))
                 } else {
-                    let t = a[0].real_type_of(ctx.clone())?;
-                    a.iter().try_for_each(|x| {
+                    let mut t = a[0].real_type_of(ctx.clone())?;
+                    for x in a.iter() {
                         let xt = x.real_type_of(ctx.clone())?;
-                        if xt != t {
-                            bail!("array member must have same type: required type={:?}, mismatch type={} item={:?}", t, xt, x)
-                        } else {
-                            Ok(())
+                        t = match t.unify(&xt) {
+                            Some(t) => t,
+                            None => bail!("array member must have same type: required type={:?}, mismatch type={} item={:?}", t, xt, x),
                         }
-                    })?;
+                    }
                     Ok(Type::Array(Box::new(t)))
                 }
             }
